@@ -92,6 +92,9 @@ func c01Alphabet(tier string) []seqSym {
 		sy("JSET", "k2", "c", "v", "true", "STR"), // the text of a literal, stored as a string
 		sy("JSET", "k1", "b", "properties.q", "null", "STR"),
 		sy("JSET", "k2", "c", "w", "false", "RAW"),
+		sy("JSET", "k2", "c", "n", ".5"), // not JSON numbers: stored as strings
+		sy("JSET", "k2", "c", "n", "e5"),
+		sy("JSET", "k1", "b", "properties.m", "-.5e1"),
 		sy("JDEL", "k1", "a", "y"),
 		// argument-shape errors: must change nothing
 		sy("SET", "k1", "a"),
